@@ -83,10 +83,13 @@ def Path.failed : Path → Option String
 /-- number of occurrences -/
 def Path.count (p : Path) (ev : Ev) : Nat := (p.filter (· == ev)).length
 
-/-- a resource acquired by `acq` (event `ok acq`) is released on this path: `call rel` or `dfr rel` after it -/
+/-- a resource acquired by `acq` (event `ok acq`) is released on this path: `call rel` or `dfr rel` after it (or `dfr rel`
+between the call and the look at its error) -/
 def Path.releasedAfter (p : Path) (acq rel : String) : Bool :=
   let rest := p.after (.ok acq)
-  rest.contains (.call rel) || rest.contains (.dfr rel)
+  rest.contains (.call rel) || rest.contains (.dfr rel) ||
+  -- a release deferred right after the call, before its error is looked at, runs at the return all the same
+  (p.has (.ok acq) && (p.after (.call acq)).contains (.dfr rel))
 
 /-- summary of a path through a constructor-like function: (failed call, resource created, resource released) -/
 def Path.resource (p : Path) (acq rel : String) : Option String × Bool × Bool :=
